@@ -8,6 +8,7 @@ mod props;
 mod reference;
 mod run;
 mod val;
+mod worker;
 
 use driver::{seed_from_env, Case, Local, Tier};
 
@@ -29,6 +30,7 @@ fn table(id: &str) -> Option<(RunFn, CheckFn)> {
         "C06" => Some((props::c06::run, props::c06::check_case)),
         "C07" => Some((props::c07::run, props::c07::check_case)),
         "C08" => Some((props::c08::run, props::c08::check_case)),
+        "C11" => Some((props::c11::run, props::c11::check_case)),
         "C15" => Some((props::c15::run, props::c15::check_case)),
         "C17" => Some((props::c17::run, props::c17::check_case)),
         "C18" => Some((props::c18::run, props::c18::check_case)),
@@ -59,6 +61,15 @@ fn main() {
                     eprintln!("unknown property {}", id);
                     2
                 }
+            };
+            std::process::exit(code);
+        }
+        "worker" => {
+            let a: Vec<&str> = args[2..].iter().map(|s| s.as_str()).collect();
+            let num = |i: usize| a.get(i).and_then(|x| x.parse::<u64>().ok()).unwrap_or(0);
+            let code = match a[0] {
+                "leftrec" => props::c11::leftrec_worker(num(1) as usize, num(2), num(3)),
+                _ => 2,
             };
             std::process::exit(code);
         }
